@@ -193,8 +193,8 @@ static long nbodies;
 static int query_order(int k) {
     int mode = (int) (nbodies % 3);
     if (mode == 0) return k;
-    if (mode == 1) return NIDX - 1 - k;
-    return (k % 2) ? NIDX / 2 - 1 - k / 2 : NIDX / 2 + k / 2;      /* NIDX/2, NIDX/2-1, NIDX/2+1, ... */
+    if (mode == 2) { static const int o[4] = {2, 1, 3, 0}; return k < 4 ? o[k] : k; }   /* entry 2 first, right after a body that ended with entry 1 */
+    return (k + 1) % NIDX;                                         /* 1, 2, ..., NIDX-1, 0 (and entry 1 once more at the end) */
 }
 
 static scpi_result_t on_T(scpi_t * c) {
@@ -205,6 +205,7 @@ static scpi_result_t on_T(scpi_t * c) {
     /* the entries are asked for in a different order from body to body (ascending, descending, from the middle): what an
        entry reports must not depend on which entries - of this or of an earlier list - were asked for before */
     for (k = 0; k < NIDX; k++) { idx = query_order(k); sb_reset(&items[idx]); numeric_queries(&items[idx], &expr, idx); }
+    if (nbodies % 3 == 1) { sb_reset(&items[1]); numeric_queries(&items[1], &expr, 1); }     /* the last thing asked of this list is entry 1 */
     sb_add(&line, ",\"N\":");
     add_compressed(&line, items, NIDX);
     for (k = 0; k < NIDX; k++) {
